@@ -50,6 +50,8 @@ structure ProcObs where
   disc : Nat
   bad : Nat
   served : Nat
+  /-- fewest discarded samples of a pool -/
+  minDisc : Nat
 deriving Repr
 
 /-- mode=proc: `given` = what the pool section of the config says about discard_overflow. With one instance, all tokens
@@ -60,7 +62,7 @@ def judgeProc (given : Option Bool) (o : ProcObs) : String :=
   if o.rc != "0" then s!"skip:pandora-process-did-not-finish-normally-rc={o.rc}"
   else if effectiveDiscard given then
     if o.bad > 0 then s!"fail:discard-sample:bad={o.bad}"
-    else if o.disc == 0 then s!"fail:late-fired:no discarded sample although discard_overflow is on by default or explicitly; fired={o.fired}"
+    else if o.minDisc == 0 then s!"fail:late-fired:a pool without any discarded sample although discard_overflow is on by default or explicitly; fired={o.fired},discarded={o.disc}"
     else if o.fired + o.disc != o.total then s!"fail:lost-token:fired={o.fired},discarded={o.disc},total={o.total}"
     else "ok"
   else
